@@ -74,8 +74,8 @@ def convert(infile, out_file_name, **options):  # type: (str, str, **str) -> Non
         if options.get('ecus', False):
             ecu_list = options['ecus'].split(',')
             db = canmatrix.CanMatrix()
-            direction = None
             for ecu in ecu_list:
+                direction = None
                 if ":" in ecu:
                     ecu, direction = ecu.split(":")
                 canmatrix.copy.copy_ecu_with_frames(ecu, dbs[name], db, rx=(direction != "tx"), tx=(direction != "rx"))
